@@ -46,6 +46,34 @@ def history_cases():
     return out
 
 
+def size_cases():
+    """a template without delimiters renders to itself whatever its size and whichever loader delivers it (sizes around the
+    usual buffer sizes), as the entry and as an included template; the expectation is the statement itself"""
+    out = []
+    n = 0
+    for size in (1, 511, 512, 4095, 4096, 4097, 8191, 8192, 8193, 32768, 65537, 200001):
+        unit = "0123456789abcdef{ } % # \u00e9\n"
+        lit = (unit * (size // len(unit.encode()) + 1)).encode()[:size]
+        if lit and lit[-1] >= 0x80:            # do not cut a multi-byte character (not required, keeps samples readable)
+            lit = lit[:-1] + b"."
+        for loader in ("", "memory", "fs"):
+            for how in ("entry", "include", "extends"):
+                n += 1
+                srcs = {"big": list(lit)}
+                if how == "entry":
+                    entry, want = "big", lit
+                elif how == "include":
+                    srcs["t"] = list(b"head{% include 'big' %}tail")
+                    entry, want = "t", b"head" + lit + b"tail"
+                else:
+                    srcs["t"] = list(b"{% extends 'big' %}{% block nothing %}x{% endblock %}")
+                    entry, want = "t", lit
+                out.append({"id": "C03-z%d" % n, "fam": "size", "k": "render", "env": ("core", "twig")[n % 2], "srcs": srcs, "entry": entry,
+                            "ctx": {}, "loader": loader, "nolog": True, "x": {"n": 2, "size": size, "how": how},
+                            "exp": {"status": "ok", "out": list(want), "log": []}})
+    return out
+
+
 def check_history(run, cases):
     import common
     obs, _ = common.run_pool(cases, deadline_ms=10000)
@@ -77,10 +105,14 @@ def check(run, only=None):
                 "tight ({%if x%}) spelling; non-trivial = >= 2 literal chunks and >= 1 construct; plus byte-level sources decided by "
                 "Lexer.tla+Parser.tla+Exec.tla: all sequences of up to 2 (thorough 3) of 20 source fragments, and verbatim "
                 "sandwiches (5 spellings of the opening tag x bodies of up to 2 (3) fragments that would be syntax elsewhere x 3 "
-                "spellings of the closing tag)")
+                "spellings of the closing tag); delimiter-free templates of 12 sizes from 1 to 200001 bytes through the recording, "
+                "memory and filesystem loaders, as entry, included and extended")
     run.assumptions = ["AST-level family: a literal run followed by a construct does not end in '{' (the byte-level family has no such exclusion)"]
     simple.gen_and_replay(run, "C03", nontrivial=nontrivial, only=only, sigfn=sigfn, check_log=False, deadline_ms=3000)
     if only is None:
+        import common
+        common.replay_vectors(run, size_cases(), nontrivial=lambda v: v["x"]["size"] > 1, check_log=False, deadline_ms=5000,
+                              sigfn=lambda v, o, why: "C03 size %s [%s loader, %s]" % (why.split(":")[0], v["loader"] or "recording", v["x"]["how"]))
         check_history(run, history_cases())
         # the same property decided from BYTES by the whole specification pipeline (Lexer -> Parser -> Exec)
         simple.gen_and_replay(run, "C03_Src", nontrivial=nontrivial, sigfn=sigfn, check_log=False, deadline_ms=3000)
